@@ -159,16 +159,24 @@ def concurrent_case(job) -> list:
     doc_name, second = job
     docs = {"native": native_doc(), "invalid": b'{"1": {"node_id": 1}}', "empty": b"", "garbage": b"\xff{"}
     viols = []
+    # the same two objects live through all three event loops (an application that calls asyncio.run per session)
+    a = Persistence({}, pers.PATH)
+    b = Persistence({9: Node(9, 17, "2.0")}, pers.PATH)
     for rnd in range(3):
         vfs = fsshim.VFS()
         vfs.files[pers.PATH] = bytearray(docs[doc_name])
-        a = Persistence({}, pers.PATH)
-        b = Persistence({9: Node(9, 17, "2.0")}, pers.PATH)
         loop = VLoop()
         loop.enter()
         try:
             with fsshim.installed(vfs):
-                tasks = [("load", loop.create_task(a.load())), (second, loop.create_task(b.load() if second == "load" else b.save()))]
+                # b's operation is in flight when a loads, and a reloads while its own save is in flight
+                tasks = [(second, loop.create_task(b.load() if second == "load" else b.save()))]
+                loop.run_ready()
+                tasks.append(("load", loop.create_task(a.load())))
+                loop.run_ready()
+                tasks.append(("save", loop.create_task(a.save())))
+                loop.run_ready()
+                tasks.append(("load", loop.create_task(a.load())))
                 for _ in range(20000):
                     if loop.ready_count():
                         loop.step()
